@@ -1,6 +1,6 @@
 SPECIFICATION Spec
-CONSTANTS ApfMode = "thorough"
-          NegFail = FALSE
+CONSTANTS ApfMode = "quick"
+          NegFail = TRUE
           MaxDepth = 5
 INVARIANTS InStep GateSound AckSound
 VIEW View
